@@ -41,6 +41,7 @@ type flaky struct {
 	// wrapper's hand-off: "the delegate has just said no")
 	armed     atomic.Bool
 	onRefused func()
+	slow      atomic.Int64 // yields per attempt
 }
 
 func (f *flaky) Acquire(ctx context.Context) (core.Listener, bool) {
@@ -48,6 +49,11 @@ func (f *flaky) Acquire(ctx context.Context) (core.Listener, bool) {
 		return nil, false
 	}
 	l, ok := f.in.Acquire(ctx)
+	if f.slow.Load() > 0 { // a slow delegate: whoever asks it yields before it gets its answer
+		for i := int64(0); i < f.slow.Load(); i++ {
+			runtime.Gosched()
+		}
+	}
 	if !ok && f.onRefused != nil && f.armed.CompareAndSwap(true, false) {
 		f.onRefused()
 	}
@@ -622,10 +628,20 @@ func twoHolders(t *testing.T, idx int64, c ctor, r *rand.Rand) {
 				}
 			}
 		}
-		fl.armed.Store(true)
+		parallel := r.IntN(2) == 0
+		if parallel {
+			// both holders complete at the same moment, each from its own goroutine, over a slow delegate
+			fl.slow.Store(int64(yields / 4))
+			second.Store(true)
+			go h2.OnSuccess()
+			rt.Count("two_holder_rounds_with_parallel_releases", 1)
+		} else {
+			fl.armed.Store(true)
+		}
 		h1.OnSuccess()
 		synctest.Wait()
 		fl.armed.Store(false)
+		fl.slow.Store(0)
 		if second.Load() {
 			trace = append(trace, "second holder completed while the first release's hand-off was being refused")
 			rt.Count("two_holder_rounds_with_overlapping_second_release", 1)
